@@ -163,7 +163,17 @@ def opMoSelLib (mu nobj ws : String) : Option String := do
   | none => some "raise"
   | some (c, nc) => some (sNats (c.map (·.id)) ++ " " ++ sNats (nc.map (·.id)))
 
-def opMoUpd (args : List String) : Option String := do
+/-- raw `_ps` token of a parent before `generate`: `o3` / `p1` as left by an earlier update or an
+earlier strategy (any index), `n` = the individual has no `_ps` attribute (any value will do, it is
+overwritten before it is read; the driver uses `p0`). -/
+def pRawTag (s : String) : Option (Bool × Nat) := if s = "n" then some (false, 0) else pTag s
+
+/-- `mo-upd`: one `update` on parents already tagged by `generate`.
+`mo-round` (`raw = true`): the parents carry the RAW tags they had before `generate` (stale tags of
+an earlier strategy after a restart, `o`-tags of promoted offspring, none); the model installs them
+(`MO.setTags`), then runs the whole round `MO.round` = `generate`'s unconditional re-tagging of every
+parent followed by `update` (theorem `mo_alignment_any_initial_tags`). -/
+def opMoUpd (raw : Bool) (args : List String) : Option String := do
   match args with
   | [dim, nobj, mu, l, d, pt, cp, cc, ccov, pth, pxs, pwvs, ptags, sigmas, As, invs, pcs, psuccs,
      oxs, owvs, otags, fronts, tape] =>
@@ -171,7 +181,8 @@ def opMoUpd (args : List String) : Option String := do
     let prm ← pMOParams [mu, l, d, pt, cp, cc, ccov, pth]
     let pxs ← pMat pxs; let oxs ← pMat oxs
     let m := pxs.length
-    let parents ← mkMInds oxs.length pxs (← pMat pwvs) (← parseList pTag ptags)
+    let rawTags ← parseList (if raw then pRawTag else pTag) ptags
+    let parents ← mkMInds oxs.length pxs (← pMat pwvs) (if raw then rawTags.map (fun _ => (false, 0)) else rawTags)
     let pop ← mkMInds 0 oxs (← pMat owvs) (← parseList pTag otags)
     let sigmas ← pVec sigmas; let As ← pMats As; let invs ← pMats invs
     let pcs ← pMat pcs; let psuccs ← pVec psuccs
@@ -179,12 +190,16 @@ def opMoUpd (args : List String) : Option String := do
          && As.all (square dim) && invs.all (square dim) && allLen dim pcs && allLen dim pxs
          && allLen dim oxs) then none
     if !((pop ++ parents).all (fun i => i.wv.length == nobj && i.pidx < m)) then none
+    if !(pop.all (fun i => i.off)) && raw then none
     let fr ← pNats2 fronts; let tape ← pAssoc tape
-    let cands := pop ++ parents
-    let frI ← byIds fr cands
     let s : MO.State Float := { dim := dim, parents := parents, sigmas := sigmas, A := As, invCh := invs,
                                 pc := pcs, psucc := psuccs, prm := prm }
-    match MO.update s nobj (fun _ => frI) (fun l _ => tapeInd tape l) pop with
+    -- the sort answers (a tape of candidate positions) are resolved against what `update` is handed:
+    -- the offspring and the parents as `generate` has tagged them
+    let cands := pop ++ (if raw then (MO.retag (MO.setTags s rawTags)).parents else parents)
+    let frI ← byIds fr cands
+    match (if raw then MO.round (MO.setTags s rawTags) nobj (fun _ => frI) (fun l _ => tapeInd tape l) pop
+           else MO.update s nobj (fun _ => frI) (fun l _ => tapeInd tape l) pop) with
     | none => some "raise"
     | some (s', nc) =>
       some (" ".intercalate [sNats (s'.parents.map (·.id)), sNats (nc.map (·.id)),
@@ -313,7 +328,8 @@ def handle : List String → String
     | some r => r
     | none => "bad-op"
   | "mo-gen" :: args => (opMoGen args).getD "bad-op"
-  | "mo-upd" :: args => (opMoUpd args).getD "bad-op"
+  | "mo-upd" :: args => (opMoUpd false args).getD "bad-op"
+  | "mo-round" :: args => (opMoUpd true args).getD "bad-op"
   | ["act-params", dim, lam] =>
     match (do pure (← parseNat dim, ← parseNat lam)) with
     | some (d, l) =>
